@@ -54,6 +54,7 @@ TNonceGen ==
      /\ \E cls \in GenClasses :
           /\ (cls = "secnonce_null") <=> (e.pre = 3)
           /\ (cls = "rand_null") <=> (e.rand_pre = 0 - 1 /\ e.pre # 3)
+          /\ cls # "seckey_other"                       \* indistinguishable from "ok" in the logged fields
           /\ NonceGen(e.o, 0, 0, cls)
      /\ last'.ret = e.ret
      /\ e.pre # 3 => ClsNum(obj'[e.o]) = e.post
